@@ -2734,7 +2734,14 @@ where
                 if packet.return_code() == ConnectReturnCode::Accepted {
                     self.status = ConnectionStatus::Connected;
                     if packet.session_present() {
-                        events.extend(self.send_stored());
+                        let resent = self.send_stored();
+                        let transmitted = resent
+                            .iter()
+                            .any(|e| matches!(e, GenericEvent::RequestSendPacket { .. }));
+                        events.extend(resent);
+                        if transmitted {
+                            self.send_post_process(&mut events);
+                        }
                     } else {
                         self.clear_store_related();
                     }
@@ -2821,7 +2828,14 @@ where
                     }
 
                     if packet.session_present() {
-                        events.extend(self.send_stored());
+                        let resent = self.send_stored();
+                        let transmitted = resent
+                            .iter()
+                            .any(|e| matches!(e, GenericEvent::RequestSendPacket { .. }));
+                        events.extend(resent);
+                        if transmitted {
+                            self.send_post_process(&mut events);
+                        }
                     } else {
                         self.clear_store_related();
                     }
